@@ -1,15 +1,108 @@
-import SeedModel.Run
+/-
+  C17 — a failure is one well-formed located diagnostic after the output so far.
+-/
+import SeedProofs.Lemmas.Located
+import SeedProofs.Lemmas.Instances
 namespace Seed.C17
+open Seed
 
 /-- every context wrapper of `Error` is looked through by the CLI renderer, or is one of the three variants that carry a
     position or a call frame and have an arm of their own (a `decide` fact about the two lists extracted from
-    src/eval/error.rs and src/main.rs) -/
+    src/eval/error.rs and src/main.rs on every run).  This is what justifies erasing the other wrappers in the model. -/
 theorem all_wrappers_peeled :
     Gen.wrapperVariants.all (fun w => Gen.peeledVariants.contains w || Gen.handledVariants.contains w) = true := by
   decide
 
-/-- the renderer only peels actual wrappers -/
-theorem peeled_are_wrappers : Gen.peeledVariants.all (fun w => Gen.wrapperVariants.contains w) = true := by
+/-- the renderer only peels actual wrappers, and the three special arms are wrappers too -/
+theorem peeled_are_wrappers :
+    (Gen.peeledVariants ++ Gen.handledVariants).all (fun w => Gen.wrapperVariants.contains w) = true := by
   decide
+
+/-- the variants with an arm of their own are exactly the position / frame carriers the model keeps -/
+theorem handled_are_the_carriers :
+    Gen.handledVariants.all (fun w => [c!"AtLoc", c!"EvalFuncCallFailed", c!"EvalBuiltinFuncCallFailed"].contains w) = true ∧
+    [c!"AtLoc", c!"EvalFuncCallFailed", c!"EvalBuiltinFuncCallFailed"].all (fun w => Gen.handledVariants.contains w) = true := by
+  decide
+
+/-- G5: whatever program is run, with whatever fuel, an evaluation error is located -/
+theorem err_located (n : Nat) (stmts : List Stmt) (e : Err) (σ : State) (h : evalProg n stmts = .err e σ) : Located e := by
+  have := evalProg_located n stmts
+  rw [h] at this
+  exact this
+
+/-- number of user-function call frames around the failure -/
+def frames : Err → Nat
+  | .leaf _ => 0
+  | .atLoc _ _ e => frames e
+  | .builtinCall _ _ e => frames e
+  | .funcCall _ _ e => frames e + 1
+
+/-- the stack trace has exactly one line per active user-function call -/
+theorem trace_length (path : List Char) (func : Option (List Char)) (e : Err) :
+    (renderErr path func e).2.length = frames e := by
+  induction e generalizing func with
+  | leaf l => simp [renderErr, frames]
+  | atLoc line col e ih => simp only [renderErr, frames]; exact ih _
+  | builtinCall name loc e ih => simp only [renderErr, frames]; exact ih _
+  | funcCall name loc e ih => simp only [renderErr, frames, List.length_append, List.length_cons, List.length_nil]; rw [ih]
+
+/-- a located error renders as `<line>:<col>:` + (` in '<f>':` when inside a called function) + ` ` + message -/
+theorem located_msg_shape (path : List Char) (func : Option (List Char)) (e : Err) (h : Located e) :
+    ∃ (l c : Nat) (f' : Option (List Char)) (rest : List Char),
+      (renderErr path func e).1 =
+        natToChars l ++ c!":" ++ natToChars c ++ c!":" ++
+          inFunc f' ++ c!" " ++ rest := by
+  induction e generalizing func with
+  | leaf l => exact absurd h (by simp [Located])
+  | atLoc line col e _ => exact ⟨line, col, func, (renderErr path func e).1, by simp [renderErr]⟩
+  | builtinCall name loc e _ =>
+    exact ⟨loc.1, loc.2, func, (renderErr path (some (name.getD c!"<unnamed function>")) e).1, by simp [renderErr]⟩
+  | funcCall name loc e ih =>
+    obtain ⟨l, c, f', rest, hr⟩ := ih (some (name.getD c!"<unnamed function>")) h
+    exact ⟨l, c, f', rest, by simp only [renderErr]; exact hr⟩
+
+/-- the innermost frame's trace line names the function that contains that call, the outermost names `<root>` -/
+theorem trace_last_is_root (path : List Char) (name : Option (List Char)) (loc : Loc) (e : Err) :
+    (renderErr path none (.funcCall name loc e)).2.getLast? =
+      some (path ++ c!":" ++ natToChars loc.1 ++ c!":" ++ natToChars loc.2 ++ c!": in '<root>'") := by
+  simp [renderErr]
+
+/-- the whole text written to stderr for a located error: one first line `<path>:<l>:<c>:…`, then the trace -/
+theorem stderr_shape (path : List Char) (e : Err) (h : Located e) :
+    ∃ (l c : Nat) (f' : Option (List Char)) (rest : List Char),
+      evalErrText path e =
+        path ++ c!":" ++ (natToChars l ++ c!":" ++ natToChars c ++ c!":" ++
+          inFunc f' ++ c!" " ++ rest) ++
+        (if (renderErr path none e).2.isEmpty then [] else c!"\nStacktrace:\n  " ++ joinWith c!"\n  " (renderErr path none e).2) ++
+        c!"\n" := by
+  obtain ⟨l, c, f', rest, hr⟩ := located_msg_shape path none e h
+  refine ⟨l, c, f', rest, ?_⟩
+  unfold evalErrText
+  simp only []
+  rw [← hr]
+
+/-- a successful run writes nothing to stderr; a failed one exits with the failure status and keeps the lines printed so far -/
+theorem ok_silent (n : Nat) (path src : List Char) (h : (run n path src).status = .success) : (run n path src).stderr = [] := by
+  unfold run at *
+  split at h <;> try (simp at h)
+  split at h <;> simp_all
+
+/-- evaluation errors keep the output of the prints completed before them: the state carried by the error is the one
+    whose output is reported -/
+theorem failed_keeps_output (n : Nat) (path src : List Char) (stmts : List Stmt) (e : Err) (σ : State)
+    (hp : parseProg src = .ok stmts) (he : evalProg n stmts = .err e σ) :
+    run n path src = ⟨σ.out.reverse, .failed, evalErrText path e⟩ := by
+  unfold run
+  simp only [hp, he]
+
+/-- G3 instance: the output of a statement list extends the output it started from (nothing is ever retracted),
+    whether it completes, fails or crashes -/
+theorem out_only_grows (n : Nat) (σ : State) (sc : List Addr) (ss : List Stmt) :
+    Res.Rel OutGrows σ (evalStmts n σ sc ss) :=
+  (relAll outGrows_good n).evalStmts σ σ sc ss (outGrows_good.refl σ)
+
+/-- non-vacuity: a concrete located error with one call frame, and its rendering -/
+example : Located (.funcCall (some c!"f") (4, 1) (Err.at (2, 14) (Gen.Leaf.Undefined c!"x"))) := trivial
+example : frames (.funcCall (some c!"f") (4, 1) (Err.at (2, 14) (Gen.Leaf.Undefined c!"x"))) = 1 := rfl
 
 end Seed.C17
